@@ -465,6 +465,14 @@ def chk_purity(T, v, M, rng):
         if seg is not None:
             one(lambda: dec_der(seg))
             one(lambda: dec_file(seg + e))
+        # objects a log line may be unable to print: the type itself, records and collections nobody filled
+        from pyasn1.type import univ as univ_
+        from pyasn1.codec.native import encoder as nate_
+        for mk in (lambda: spec, lambda: spec.clone(), univ_.Sequence, univ_.Set, univ_.SequenceOf, univ_.SetOf):
+            one(lambda mk=mk: be.encode(mk()))
+            one(lambda mk=mk: de.encode(mk()))
+            one(lambda mk=mk: be.encode(mk(), defMode=False))
+            one(lambda mk=mk: repr(nate_.encode(mk())))
         return res
     try:
         off = calls()
